@@ -78,10 +78,16 @@ pub use types::{
 	WalletOutputBatch,
 };
 
+/// Verification hooks (only with `--cfg grin_wallet_verif`)
+#[cfg(grin_wallet_verif)]
+pub use grin_wallet_util::verif as verif_hooks;
+
 /// Helper for taking a lock on the wallet instance
 #[macro_export]
 macro_rules! wallet_lock {
 	($wallet_inst: expr, $wallet: ident) => {
+		#[cfg(grin_wallet_verif)]
+		let _ = $crate::verif_hooks::point("wallet_lock");
 		let inst = $wallet_inst.clone();
 		let mut w_lock = inst.lock();
 		let w_provider = w_lock.lc_provider()?;
